@@ -1,3 +1,159 @@
 package main
 
-func selfTestImpl(prop, repo string) interface{} { return nil }
+import (
+	"encoding/json"
+	"fmt"
+	"os"
+	"os/exec"
+	"path/filepath"
+	"sort"
+	"strings"
+	"sync"
+)
+
+// selfTestImpl (analysis F, thorough tier only): validates the rule set of one property against the catalogue of
+// independently produced breaking changes (/verif/seeded) and behaviour-preserving variants (/verif/neutral).
+// Each variant is applied to a scratch copy of /repo's current root package and analysed by a sub-process of this
+// binary. The outcome is reported in the evidence file; it never produces a VIOLATION line (it is about the checker,
+// not about /repo).
+func selfTestImpl(prop, repo string) interface{} {
+	verif := "/verif"
+	if exe, err := os.Executable(); err == nil {
+		if d := filepath.Dir(filepath.Dir(exe)); fileExists(filepath.Join(d, "seeded")) {
+			verif = d
+		}
+	}
+	type variant struct {
+		ID, Patch string
+		Breaking  bool
+	}
+	var vs []variant
+	seeds, _ := filepath.Glob(filepath.Join(verif, "seeded", "*", "patch.diff"))
+	for _, p := range seeds {
+		id := filepath.Base(filepath.Dir(p))
+		expect := strings.HasPrefix(id, prop+"-")
+		if b, err := os.ReadFile(filepath.Join(filepath.Dir(p), "meta.json")); err == nil {
+			var m struct {
+				Static struct {
+					Fires []string `json:"properties_whose_quick_check_fires"`
+				} `json:"static_checks"`
+			}
+			if json.Unmarshal(b, &m) == nil && len(m.Static.Fires) > 0 {
+				expect = false
+				for _, f := range m.Static.Fires {
+					if f == prop {
+						expect = true
+					}
+				}
+			}
+		}
+		if expect {
+			vs = append(vs, variant{id, p, true})
+		}
+	}
+	neutrals, _ := filepath.Glob(filepath.Join(verif, "neutral", "*", "patch.diff"))
+	for _, p := range neutrals {
+		vs = append(vs, variant{filepath.Base(filepath.Dir(p)), p, false})
+	}
+	sort.Slice(vs, func(i, j int) bool { return vs[i].ID < vs[j].ID })
+	exe, err := os.Executable()
+	if err != nil {
+		return map[string]interface{}{"error": err.Error()}
+	}
+	type outcome struct {
+		v       variant
+		applied bool
+		fired   bool
+		detail  string
+	}
+	res := make([]outcome, len(vs))
+	sem := make(chan struct{}, 8)
+	var wg sync.WaitGroup
+	for i, v := range vs {
+		wg.Add(1)
+		go func(i int, v variant) {
+			defer wg.Done()
+			sem <- struct{}{}
+			defer func() { <-sem }()
+			o := outcome{v: v}
+			tmp, err := os.MkdirTemp("", "mqttcheck-selftest-")
+			if err != nil {
+				res[i] = o
+				return
+			}
+			defer os.RemoveAll(tmp)
+			src := filepath.Join(tmp, "src")
+			os.MkdirAll(src, 0o755)
+			ents, _ := os.ReadDir(repo)
+			for _, e := range ents {
+				n := e.Name()
+				if e.IsDir() || (!strings.HasSuffix(n, ".go") && n != "go.mod" && n != "go.sum") || strings.HasSuffix(n, "_test.go") {
+					continue
+				}
+				b, err := os.ReadFile(filepath.Join(repo, n))
+				if err == nil {
+					os.WriteFile(filepath.Join(src, n), b, 0o644)
+				}
+			}
+			ap := exec.Command("patch", "-p1", "-s", "-f", "-d", src, "-i", v.Patch)
+			if out, err := ap.CombinedOutput(); err != nil {
+				o.detail = "patch does not apply to the current tree: " + firstLine(string(out))
+				res[i] = o
+				return
+			}
+			o.applied = true
+			cmd := exec.Command(exe, "-property", prop, "-tier", "quick", "-repo", src, "-verif", filepath.Join(tmp, "v"))
+			out, _ := cmd.CombinedOutput()
+			o.fired = cmd.ProcessState != nil && cmd.ProcessState.ExitCode() != 0
+			for _, l := range strings.Split(string(out), "\n") {
+				if strings.Contains(l, "VIOLATED") || strings.Contains(l, "UNDECIDED") || strings.Contains(l, "ANCHOR-LOST") || strings.Contains(l, "LOAD FAILED") || strings.Contains(l, "PANIC") {
+					o.detail = l
+					if len(o.detail) > 260 {
+						o.detail = o.detail[:260]
+					}
+					break
+				}
+			}
+			res[i] = o
+		}(i, v)
+	}
+	wg.Wait()
+	seeded, killed, neutral, silent := 0, 0, 0, 0
+	var missed, noisy, skipped []string
+	var killedBy []string
+	for _, o := range res {
+		if !o.applied {
+			skipped = append(skipped, o.v.ID+": "+o.detail)
+			continue
+		}
+		if o.v.Breaking {
+			seeded++
+			if o.fired {
+				killed++
+				killedBy = append(killedBy, o.v.ID+" -> "+o.detail)
+			} else {
+				missed = append(missed, o.v.ID)
+				fmt.Printf("SELFTEST-MISS property=%s seeded=%s (the rule set stayed silent on a change recorded as breaking this property)\n", prop, o.v.ID)
+			}
+		} else {
+			neutral++
+			if o.fired {
+				noisy = append(noisy, o.v.ID+" -> "+o.detail)
+				fmt.Printf("SELFTEST-NOISE property=%s neutral=%s %s\n", prop, o.v.ID, o.detail)
+			} else {
+				silent++
+			}
+		}
+	}
+	fmt.Printf("   selftest %s: %d/%d seeded breaks detected, %d/%d neutral variants silent, %d skipped\n", prop, killed, seeded, silent, neutral, len(skipped))
+	return map[string]interface{}{
+		"seeded": seeded, "killed": killed, "missed": missed, "killed_detail": killedBy,
+		"neutral": neutral, "silent": silent, "noisy": noisy, "skipped": skipped,
+		"note": "seeded = independently produced breaking changes whose meta.json lists this property among those expected to fire; neutral = behaviour-preserving refactorings on which every rule must stay silent; each variant analysed on a scratch copy of /repo's root package",
+	}
+}
+
+func fileExists(p string) bool {
+	_, err := os.Stat(p)
+	return err == nil
+}
